@@ -300,7 +300,7 @@ theorem reuse_next (c : Conn) (r : AReq) (cs : CloseSt) (status : ExitStatus) (a
 `close` — no `EndRequest` is written. -/
 theorem handler_step (c : Conn) (r : AReq) (h : HState) (hp : c.phase = .handler r h) :
     stepConn c =
-      match handlerPoll (handlerFuel c.env r) r h c.env with
+      match handlerPoll ((handlerFuel c.env r + scriptOf c)) r h c.env with
       | (r, h, e, .pending) => .halt { c with phase := .handler r h, env := e } .pending
       | (_, _, e, .panic s) => .halt { c with env := e } (.panic s)
       | (r, h, e, .done (.ok st)) =>
@@ -313,7 +313,7 @@ theorem handler_step (c : Conn) (r : AReq) (h : HState) (hp : c.phase = .handler
         else .halt { c with phase := .finished, env := e.ev s!"HE(err:{showIo x})" } .finished := by
   obtain ⟨phase, env, scripts, stop⟩ := c
   simp only at hp; subst hp
-  simp only [stepConn, handlerFuel]
+  simp only [stepConn, handlerFuel, scriptOf]
   generalize handlerPoll _ r h env = x
   obtain ⟨r', h', e, res⟩ := x
   cases res with
@@ -327,7 +327,7 @@ theorem handler_step (c : Conn) (r : AReq) (h : HState) (hp : c.phase = .handler
 becomes `closing`, and this transition writes nothing (only the `HE(` event is appended). -/
 theorem handler_error_finishes (c : Conn) (r : AReq) (h : HState) (r' : AReq) (h' : HState) (e : Env)
     (x : IoErr) (hp : c.phase = .handler r h)
-    (hh : handlerPoll (handlerFuel c.env r) r h c.env = (r', h', e, .done (.error x)))
+    (hh : handlerPoll ((handlerFuel c.env r + scriptOf c)) r h c.env = (r', h', e, .done (.error x)))
     (hx : x ≠ .abortRequest) :
     stepConn c = .halt { c with phase := .finished, env := e.ev s!"HE(err:{showIo x})" } .finished ∧
     (e.ev s!"HE(err:{showIo x})").tr.wlog = e.tr.wlog := by
